@@ -1306,13 +1306,16 @@ def run_deep(ctx: Ctx):
 # persistence: IdentityManager / PseudonymManager on a database file, with restarts
 # ------------------------------------------------------------------------------------------------------------
 def make_persist_scenario(rng) -> dict:
-    keyhex, fkeyhex = seeded_key(rng), seeded_key(rng)
+    ecdsa = rng.random() < 0.4      # a key level whose signatures are not deterministic: the same pointers signed twice
+    keyhex, fkeyhex = (VERY_LOW_KEYS[0], VERY_LOW_KEYS[1]) if ecdsa else (seeded_key(rng), seeded_key(rng))
     sk, fk = load_key(keyhex), load_key(fkeyhex)
     genesis = sha3(sk.pub().key_to_bin())
     n = rng.randrange(2, 8)
     parents = parents_for(rng, n, rng.choice(["chain", "chain", "random", "binary"]))
     mix = [rng.choice(["dangling", "forged-sig", "signed-non-token", "foreign", "dangling-child"])
            for _ in range(rng.randrange(0, 3))]
+    if ecdsa:       # re-signed twins, each with children of its own
+        mix += ["resigned", "resigned-child"] + [rng.choice(["resigned", "resigned-child"]) for _ in range(rng.randrange(0, 3))]
     toks = build_tokens(rng, sk, fk, genesis, parents, mix)
     wire = [i for i, t in enumerate(toks) if wellformed(t)]
     evs = []
@@ -1343,12 +1346,44 @@ def make_persist_scenario(rng) -> dict:
     if rng.random() < 0.6:
         evs.append(["substantiate", "all-inorder", list(wire)])
         evs.append(["restart"])
-    return {"persist": True, "key": keyhex, "fkey": fkeyhex, "keytype": "curve25519", "cap": 100, "shape": "persist",
+    return {"persist": True, "key": keyhex, "fkey": fkeyhex, "keytype": "very-low" if ecdsa else "curve25519",
+            "cap": 100, "shape": "persist",
             "order": "persist", "size_class": "persist", "parents": parents, "mix": mix, "tokens": toks, "ops": evs}
 
 
 class PersistRun(Run):
+    def twin_rows(self, tree, n, ev) -> bool:
+        """an element whose parent is missing because the table (keyed by the pointer pair, not by the signature) kept
+        the row of the parent's re-signed twin.  Returns True when such an element was found (and reported)."""
+        found = False
+        by_hid = {}
+        for t in self.toks:
+            by_hid.setdefault(tk_hid(t), t)
+        for h, el in tree.elements.items():
+            ph = el.previous_token_hash
+            if ph == self.genesis or ph in tree.elements or ph not in by_hid:
+                continue
+            p = by_hid[ph]
+            pair = (bytes.fromhex(p["prev"]), bytes.fromhex(p["chash"]))
+            twins_in = [x for x, e2 in tree.elements.items()
+                        if (e2.previous_token_hash, e2.content_hash) == pair and x != ph]
+            if not twins_in:
+                continue
+            found = True
+            if self.first_of_pair.get(pair) == ph:
+                self.fail("IdentityDatabase.insert_token:stored-row-replaced",
+                          f"after event {n} {ev[:2]}: element {id8(h)} dangles: the row of its parent {id8(ph)}, the FIRST "
+                          f"token stored for its pointer pair, was replaced by the row of the re-signed twin {id8(twins_in[0])}")
+            else:
+                self.ctx.count("persist:known:later-twin-row-ignored")
+                self.fail("IdentityDatabase.insert_token:twin-row-ignored",
+                          f"after event {n} {ev[:2]}: element {id8(h)} dangles after the restart: its parent {id8(ph)} is a "
+                          f"re-signed twin of {id8(twins_in[0])} (same pointer pair, other signature); the table is keyed by the "
+                          f"pointer pair, so the later twin's row was never stored")
+        return found
+
     def run(self, ops=None):
+        self.first_of_pair: dict = {}
         import os
         import tempfile
         from ipv8.attestation.identity.manager import IdentityManager
@@ -1393,12 +1428,16 @@ class PersistRun(Run):
                         manager.database.close()
                         manager = IdentityManager(path)
                         self.ctx.count("persist:restart")
+                        self.ctx.count(f"persist:restart:{sc['keytype']}")
                         ln = "prestart"
                     tree = manager.get_pseudonym(self.pub).tree
                     rows = len(manager.database.get_tokens_for(self.pub))
                     self.line(ln, f"{self.state(tree)} D={rows}")
-                    self.check_invariants(tree, f"after event {n} {ev[:2]} of a PseudonymManager"
-                                          + (" (restarted on its database)" if kind == "restart" else ""))
+                    for h, el in tree.elements.items():      # which token of a pointer pair entered the tree first
+                        self.first_of_pair.setdefault((el.previous_token_hash, el.content_hash), h)
+                    if not self.twin_rows(tree, n, ev):
+                        self.check_invariants(tree, f"after event {n} {ev[:2]} of a PseudonymManager"
+                                              + (" (restarted on its database)" if kind == "restart" else ""))
                     self.tree = tree
             except Exception as e:
                 n, ev = self.cur
@@ -1898,6 +1937,7 @@ REQUIRED = [
     "multi:offer:other-key:none:seen-by-another-tree-before", "offered:resplit", "op:create", "op:todb",
     "offered:signed-non-token", "init:both:refused", "init:neither:refused", "init:bothgood:refused",
     "persist:restart", "persist:substantiate:dangling-part", "persist:credential", "persist:waiting-at-restart",
+    "persist:restart:very-low", "persist:restart:curve25519",
 ]
 
 
@@ -1907,7 +1947,8 @@ def check_required(ctx: Ctx):
     missing = [pat for pat in REQUIRED if not any(v > 0 and fnmatch.fnmatchcase(k, pat) for k, v in ctx.counts.items())]
     ctx.extra["required_branch_classes"] = {"listed": len(REQUIRED), "reached": len(REQUIRED) - len(missing),
                                             "missing": missing}
-    if missing and not ctx.failures and not ctx.disagreements and not ctx.broken:
+    real_failures = [f for f in ctx.failures if f["signature"] != "IdentityDatabase.insert_token:twin-row-ignored"]
+    if missing and not real_failures and not ctx.disagreements and not ctx.broken:
         raise InfraError("coverage lost: branch classes never reached in this run: " + ", ".join(missing))
 
 
